@@ -154,6 +154,7 @@ pub fn mix(a: u64, b: u64) -> u64 {
 // ---------------------------------------------------------------- panic boundary
 thread_local! {
     static LAST_PANIC: RefCell<Option<String>> = RefCell::new(None);
+    static IN_GUARD: std::cell::Cell<bool> = std::cell::Cell::new(false);
 }
 pub static PANICS_SEEN: AtomicU64 = AtomicU64::new(0);
 
@@ -176,6 +177,10 @@ pub fn install_panic_hook() {
             "<non-string payload>".into()
         };
         PANICS_SEEN.fetch_add(1, Ordering::Relaxed);
+        if !IN_GUARD.with(|g| g.get()) {
+            // a panic outside the monitored boundary is a harness error: make it visible
+            eprintln!("HARNESS PANIC (outside the panic boundary) at {}: {}", loc, msg);
+        }
         LAST_PANIC.with(|p| *p.borrow_mut() = Some(format!("{} | {}", loc, msg)));
     }));
 }
@@ -187,7 +192,10 @@ pub fn take_panic() -> String {
 /// Runs `f`, converting a panic into `Err("file:line | message")`.
 #[inline]
 pub fn guard<R>(f: impl FnOnce() -> R) -> Result<R, String> {
-    match catch_unwind(AssertUnwindSafe(f)) {
+    let prev = IN_GUARD.with(|g| g.replace(true));
+    let r = catch_unwind(AssertUnwindSafe(f));
+    IN_GUARD.with(|g| g.set(prev));
+    match r {
         Ok(r) => Ok(r),
         Err(_) => Err(take_panic()),
     }
@@ -306,7 +314,9 @@ impl Stats {
     pub fn eval<C: Case>(&mut self, c: &C, f: impl FnOnce(&mut Stats, &C)) {
         self.evals += 1;
         self.cur_evals += 1;
+        let prev = IN_GUARD.with(|g| g.replace(true));
         let r = catch_unwind(AssertUnwindSafe(|| f(self, c)));
+        IN_GUARD.with(|g| g.set(prev));
         if r.is_err() {
             let p = take_panic();
             self.panics += 1;
